@@ -149,6 +149,8 @@ impl Drop for Client {
         // semaphore.
         // (the sequence number is drawn before the permit becomes visible to the accept loop)
         #[cfg(memcrs_verif)]
+        let _verif_serial = crate::verif::serial();
+        #[cfg(memcrs_verif)]
         let verif_seq = crate::verif::next_seq();
         self.limit_connections.add_permits(1);
         #[cfg(memcrs_verif)]
